@@ -29,7 +29,7 @@ func checkC01(cx *Ctx, r *Report) {
 	// --- gate -----------------------------------------------------------------------------
 	doneAtom := func(atoms []Atom) bool {
 		for _, a := range atoms {
-			if a.Op == "CALL:iface:models.AuthRequestInt.Done" && !a.Neg && a.A == "loginResponse/authRequest" {
+			if a.Op == "CALL:iface:models.AuthRequestInt.Done" && !a.Neg && a.TA == "<models.AuthRequestInt>" {
 				return true
 			}
 		}
@@ -40,7 +40,10 @@ func checkC01(cx *Ctx, r *Report) {
 		match func(ssa.CallInstruction) bool
 	}{
 		{"SetUserinfoWithUserID", matchStorage("SetUserinfoWithUserID")},
-		{"getResponseCert", matchFnKey(w, "provider.getResponseCert")},
+		{"getResponseCert", func(c ssa.CallInstruction) bool {
+			f := calleeOf(c)
+			return f != nil && f == cx.fnCallingStorage("GetResponseSigningKey")
+		}},
 		{"makeSuccessfulResponse", matchFnKey(w, "provider.(*Response).makeSuccessfulResponse")},
 		{"createSignature", matchFnKey(w, "provider.createSignature")},
 	}
@@ -229,7 +232,7 @@ func checkC01(cx *Ctx, r *Report) {
 		if len(sites) == 0 {
 			r.Fail("R-VFG", "sendBackResponse:marshal", w.FnPos(sb), "sendBackResponse no longer marshals its response")
 		} else {
-			r.checkSources("R-VFG", "sendBackResponse:marshal", w.InstrPos(sites[0]), ls, []string{"param:provider.(*Response).sendBackResponse/resp"}, []string{"param:provider.(*Response).sendBackResponse/resp"}, true)
+			r.checkSources("R-VFG", "sendBackResponse:marshal", w.InstrPos(sites[0]), ls, []string{"param:provider.(*Response).sendBackResponse/#3"}, []string{"param:provider.(*Response).sendBackResponse/#3"}, true)
 		}
 		for _, c := range w.callsTo(w.scopeOf(sb), matchFnKey(w, "provider.(*Response).makeFailedResponse", "provider.makeResponse", "provider.(*Response).makeSuccessfulResponse")) {
 			r.Fail("R-VFG", "sendBackResponse:builds-response", w.InstrPos(c), "sendBackResponse builds a response of its own: what is sent is not what the caller decided to send")
